@@ -80,6 +80,17 @@ class ExprMixin:
                     and val.func.id == 'object' and not val.args:
                 r2 = self.repo.resolve_global(module, n)
                 return SStr(self.W.sentinel('%s.%s' % (self.defining_module(module, n), n)))
+            if kind == 'assign' and isinstance(val, ast.Constant) and self.repo.assigned_once(self.defining_module(module, n), n):
+                # module-level named constant (e.g. _STORY_TAG = 'story'): its value
+                c = val.value
+                if isinstance(c, str):
+                    return self.lit(c)
+                if isinstance(c, bool):
+                    return SBool(c)
+                if isinstance(c, int):
+                    return SInt(c)
+                if c is None:
+                    return NONE
             if kind == 'assign':
                 # module-level singletons: logger, s3 = S3(), main = CLI()
                 return SModule('%s.%s' % (module, n))
@@ -268,6 +279,8 @@ class ExprMixin:
             if isinstance(a, SStr) and isinstance(b, SStr) and sign == 1:
                 if a.py is not None and b.py is not None:
                     return [(st, self.lit(a.py + b.py))]
+                if b.py == 'ID':
+                    return [(st, SStr(L.idtag(a.t)))]       # child_tag + 'ID', the same as f'{child_tag}ID'
                 r = SStr(self.W.fresh('concat', Str))
                 r.parts = [a, b]
                 st.assume(r.t != none_s)
@@ -285,6 +298,17 @@ class ExprMixin:
                 add = a.cls.lookup('__add__')
                 if add is not None:
                     return self.call_function(add, [a, b], {}, st)
+        if isinstance(op, ast.Mod) and isinstance(a, SStr) and a.py is not None:
+            # printf-style formatting of a literal: '%sID' % tag is the ID tag name; every other text is an opaque message string
+            args = b.items if isinstance(b, STuple) else [b]
+            if a.py == '%sID' and len(args) == 1 and isinstance(args[0], SStr):
+                x = args[0]
+                return [(st, self.lit(x.py + 'ID') if x.py is not None else SStr(L.idtag(x.t)))]
+            if a.py.count('%') - 2 * a.py.count('%%') == len(args):
+                r = SStr(self.W.fresh('fmt', Str))
+                r.parts = list(args)
+                st.assume(r.t != none_s)
+                return [(st, r)]
         raise ToolLimit('binop %s on %r, %r' % (type(op).__name__, a, b))
 
     def ex_Compare(self, e, st, fx):
